@@ -11,6 +11,9 @@ CONFIGS = {
     "tsan": dict(cxx=["clang++"], flags=["-std=c++11", "-O1", "-g", "-fsanitize=thread", "-w"]),
     # plain debug build, asserts on
     "dbg": dict(cxx=["g++"], flags=["-std=c++11", "-O1", "-g", "-w"]),
+    # schedule explorer: plain build; the one instrumented TU gets -fsanitize=thread as a per-source flag and the
+    # program is linked WITHOUT libtsan (the harness defines the __tsan_* entry points itself)
+    "vsched": dict(cxx=["g++"], flags=["-std=c++11", "-O1", "-g", "-w"], lib=False, libs=["-lm"]),
 }
 
 E = "exploration"
@@ -221,5 +224,20 @@ CHECKS["C09"] = dict(
          "a state = one statement shape with its configuration; a transition = its execution",
     assumptions=["nested expressions reduce to single-operation forms through temporaries", "the meaning of each operation is decided by C01-C03; here only fusion"],
     runs=[run("c09", c09_srcs(), "prod", shards=8), run("c09_asan", c09_srcs(), "asan", shards=8, args=["--reduced"])],
+)
+
+def c19_srcs(opt):
+    return ["c19.cpp", ("c19_cache.cpp", ["-fsanitize=thread", "-" + opt]), ("c19_cache.cpp", ["-DC19_THREAD_LOCAL_VARIANT", "-O1"])]
+CHECKS["C19"] = dict(
+    level=MC, engine="schedule-explorer",
+    technique="stateless depth-first exploration of thread interleavings (ucontext fibres, scheduling point at every compiler-instrumented access to the cache object) with preemption bounding and state hashing",
+    rule="detail::cache<Tok,N> in the shared (CAS) configuration, N=1..4, roots {empty, one entry, full}; thread x operation plans 2x1, 2x2, 2x3, 3x1 with UNBOUNDED preemptions (state hashing makes the search finite), "
+         "3x2 with preemption bound 2 (thorough 4), thorough also 3x3 with bound 3 (N<=2); every assignment of {insert fresh token, get} to the operation slots up to thread symmetry; compare_exchange_weak may fail "
+         "spuriously once per execution; two builds of the instrumented TU (-O0 source order, -O2). Oracle at quiescence: every fetched token was inserted, none twice, failed inserts handed to nobody, drain == inserted minus "
+         "fetched, at most N held, no livelock. Sequential part: all 2^(2N+4) insert/get strings on both variants against a bounded LIFO stack. states = distinct hashed choice-point states, transitions = choice points executed, "
+         "traces = complete executions of the real code",
+    assumptions=["sequential consistency (on x86-TSO each plain store is followed by a locked cmpxchg before it can matter to another thread)", "at most 3 threads, 3 operations each", "deviation bound 1 for spurious CAS failures"],
+    runs=[run("c19_O0", c19_srcs("O0"), "vsched", nolib=True, shards=16, args=["--opt", "O0"]),
+          run("c19_O2", c19_srcs("O2"), "vsched", nolib=True, shards=16, args=["--opt", "O2"])],
 )
 NOT_APPLICABLE = {}
